@@ -663,7 +663,12 @@ def shape_changes(model, R, scope):
         n += 1
         public = not func.name.startswith('_') or (func.name.startswith('__') and func.name.endswith('__'))
         rets = [x.value for x in walk(node.body) if isinstance(x, ast.Return) and x.value is not None]
-        if pinned is not None and public and func.parent is None and pinned['gen'] != cur['gen']:
+        own_params = [q for q in (func.params[1:] if func.cls is not None else func.params)]
+        if pinned is not None and public and func.parent is None and pinned['gen'] != cur['gen'] and not own_params:
+            # nothing but self is captured: deferring the body is only observable if the object changes in between - not judged
+            R.unknown('KIND-CHANGE', func, node, f'{func.name} stays a {"generator" if pinned["gen"] else "plain"} function',
+                      'the function changed between generator and plain function; it takes no arguments whose reading could be deferred')
+        elif pinned is not None and public and func.parent is None and pinned['gen'] != cur['gen']:
             R.bad('KIND-CHANGE', func, node, f'{func.name} stays a {"generator" if pinned["gen"] else "plain"} function',
                   'generator function' if pinned['gen'] else 'a function whose body runs at the call',
                   'generator function (body deferred to the first next())' if cur['gen'] else 'plain function',
@@ -765,6 +770,14 @@ def bitlength_index(model, R, scope):
                 continue
             n += 1
             x = idx.left.func.value
+            # the lowest set bit of b ( b & -b ) is non-zero exactly when b is: test b instead
+            xe = Env(func).expand(x) if isinstance(x, ast.Name) else x
+            if (isinstance(xe, ast.BinOp) and isinstance(xe.op, ast.BitAnd)
+                    and any(isinstance(q, ast.UnaryOp) and isinstance(q.op, ast.USub) and src(q.operand) == src(r_) for q, r_ in ((xe.left, xe.right), (xe.right, xe.left)))):
+                x = xe.right if isinstance(xe.left, ast.UnaryOp) else xe.left
+            elif not isinstance(x, (ast.Name, ast.Attribute)):
+                R.unknown('NEGATIVE-INDEX', func, sub, f'{src(x)[:40]} is known to be non-zero where it is used as a position', 'expression form not judged')
+                continue
             ctx = context_of(func.body, sub)
             tested = False
             for c in ctx or []:
